@@ -159,9 +159,7 @@ def validate(seed, tier):
                 inp = dict(model=model, L=L, d=2, ftype='c', params=[complex(a, b) for a, b in rng.standard_normal((L, 2))])
             else:
                 inp = dict(model=model, L=L, d=d, params=[float(x) for x in rng.standard_normal(3)])
-            f = concrete.CHECKS['lattice_model'](inp)
-            if f:
-                raise runner.HarnessError(f'reference disagrees with the unchanged tree for {model}: {f}')
+            runner.concrete_check('lattice_model', inp)
             n += 1
     return dict(model_instances_checked_concretely=n)
 
